@@ -27,10 +27,29 @@ fn main() {
             check_native(&f, *tf, loc);
         }
     }));
+    let tf3: Vec<TF> = vec![TF { n: [1, 1, 1], recipe: 0 }, TF { n: [2, 0, 1], recipe: 0 }, TF { n: [1, 2, 0], recipe: 4 }, TF { n: [0, 1, 2], recipe: 2 }];
+    let s4 = Spec { n_min: 4, n_max: 4, e_min: 0, e_max: 1, ks: 1, kt: 1, lw: 3, lx: 1, a: 1, b: 1, q: 0 };
+    let u4 = s4.universe();
+    ctx.run_slice(Slice::new(format!("native-three-labels-four-nodes[{} x {} functors]", s4.name(), tf3.len()), u4.count(), |i, loc| {
+        let f = u4.get_open(i);
+        for tf in &tf3 {
+            loc.more_cases(1);
+            check_native(&f, *tf, loc);
+        }
+    }));
+    let s3e = Spec { n_min: 1, n_max: 2, e_min: 3, e_max: 3, ks: 1, kt: 1, lw: 1, lx: 2, a: 1, b: 1, q: 0 };
+    let u3e = s3e.universe();
+    ctx.run_slice(Slice::new(format!("native-three-hyperedges[{} x {} functors]", s3e.name(), tf3.len()), u3e.count(), |i, loc| {
+        let f = u3e.get_open(i);
+        for tf in &tf3 {
+            loc.more_cases(1);
+            check_native(&f, *tf, loc);
+        }
+    }));
     // refusal: every lax diagram with at least one pending unification
     let lspec = if quick { Spec::lax(2, 1, 1, 2, 1, 1, 1, 2) } else { Spec::lax(3, 1, 2, 2, 1, 1, 1, 2) };
     let lu = lspec.universe();
-    let tfs_r: Vec<TF> = vec![TF { n: [1, 1], recipe: 0 }, TF { n: [2, 0], recipe: 1 }, TF { n: [0, 2], recipe: 2 }];
+    let tfs_r: Vec<TF> = vec![TF { n: [1, 1, 1], recipe: 0 }, TF { n: [2, 0, 1], recipe: 1 }, TF { n: [0, 2, 1], recipe: 2 }];
     ctx.run_slice(Slice::new(format!("refusal[{} with >=1 pending pair x {} functors]", lspec.name(), tfs_r.len()), lu.count(), |i, loc| {
         let l = lu.get(i);
         if !l.quot.is_empty() {
